@@ -118,7 +118,7 @@ void harness(void)
       size_t alen = (eff == AF_INET) ? 4 : 16;
       VP_ASSERT(st == ARES_SUCCESS && h != NULL, "conversion succeeds");
       VP_ASSERT(h->h_addrtype == eff && h->h_length == (int)alen, "address type and length are the requested family's");
-      VP_ASSERT(h->h_name != NULL && str_eq(h->h_name, NC ? c0n : nm), "official name: first CNAME target, else the queried name");
+      VP_ASSERT(h->h_name != NULL && str_eq(h->h_name, NC == 2 ? c1n : (NC ? c0n : nm)), "official name: the end of the alias chain (last CNAME target), else the queried name");
       VP_ASSERT(h->h_aliases != NULL, "alias list present");
       for (i = 0; i < NC; i++)
         VP_ASSERT(h->h_aliases[i] != NULL && str_eq(h->h_aliases[i], i == 0 ? c0a : c1a), "aliases are the CNAME owners in order");
